@@ -1570,10 +1570,13 @@ class IndexGitShaMap(GitShaMap):
             set: Set of revision IDs that are missing from the index.
         """
         missing_revids = set(revids)
-        for _, key, _value in self._index.iter_entries(
-            (b"commit", revid, b"X") for revid in revids
-        ):
+        keys = [(b"commit", revid, b"X") for revid in missing_revids]
+        for _, key, _value in self._index.iter_entries(keys):
             missing_revids.remove(key[1])
+        if self._builder is not None:
+            # Revisions added in the open write group are known as well.
+            for _, key, _value in self._builder.iter_entries(keys):
+                missing_revids.discard(key[1])
         return missing_revids
 
     def sha1s(self):
